@@ -2,7 +2,8 @@
      env      = <fonts>;<certdir>;<rev>;<pool>     fonts: "-" (error) | "" | name:val,name:val   pool: "-" | n
      section  = L | R | K<name> | N | D | C | T | I | P
      result   = u | e | f- | f<val> | n<name>.<name>... | c0 | c1 | p- | p<n>
-   seq    st0 item item ...      item = "env:<env>" | "secs:<s>,<s>,..."      -> results joined by ","
+   seq    st0 item item ...      item = "env:<env>" | "secs:<s>,<s>,..." | "obs:"   -> results joined by ","
+          ("obs:" prints the observable state: s<loaded>.<dir>.<rev>.n<font names>)
           (st0 = "init": state of a fresh process)
    sched  <env> <threads> <schedule>   threads = thread/thread/..., thread = op;op;..., op = s.s.s
           schedule = t,t,t (decimal-free: hex)  -> events "t:op=result" joined by " "
@@ -54,6 +55,10 @@ let dispatch fn args = match fn, args with
           else if k = "secs" then begin
             let (st', rs) = run_secs !e !st (List.map parse_sec (split ',' v)) in
             st := st'; out := !out @ List.map str_result rs end
+          else if k = "obs" then begin
+            let s = !st in
+            out := !out @ [Printf.sprintf "s%d.%s.%s.n%s" (if s.s_loaded then 1 else 0) (hex_of_n s.s_dir) (hex_of_n s.s_rev)
+                             (String.concat "." (List.map (fun (k, _) -> hex_of_n k) s.s_fonts))] end
           else failwith "bad item kind") items;
     String.concat "," !out
   | "sched", [env; threads; schedule] ->
